@@ -558,12 +558,23 @@ def worker(job):
                 cfg = rigp.Cfg.from_json(d)
         # make_user for localized keys needs the engine id -> Sess creates agent first
         s = Sess(i, cfg, random.Random(rng.random()), knobs)
-        if cfg.version == "v3" and cfg.auth_kt != "localized" and cfg.priv_kt != "localized":
-            key = repr(sorted((k, v) for k, v in cfg.to_json().items() if k in ("user", "auth", "priv", "auth_kt", "priv_kt", "auth_pw", "priv_pw")))
-            if key not in shared_users:
-                shared_users[key] = rigp.make_user(cfg, s.engine_id)
-            s.user_obj = shared_users[key]
-        s.start()
+        try:
+            if cfg.version == "v3" and cfg.auth_kt != "localized" and cfg.priv_kt != "localized":
+                key = repr(sorted((k, v) for k, v in cfg.to_json().items() if k in ("user", "auth", "priv", "auth_kt", "priv_kt", "auth_pw", "priv_pw")))
+                if key not in shared_users:
+                    shared_users[key] = rigp.make_user(cfg, s.engine_id)
+                s.user_obj = shared_users[key]
+            s.start()
+        except BaseException as e:  # a valid configuration must be accepted
+            info = rigp.exc_info(e)
+            res["bad"].append({"aspect": "create", "msg": "creating the session for a valid configuration raised %s: %s" % (info["cls"], info["msg"][:160]),
+                               "cfgkey": cfg.key(), "cfg": cfg.to_json(), "op": "create", "args": "", "behaviour": "", "outcome": info["cls"],
+                               "datagram": None, "state": {}})
+            try:
+                s.agent.stop()
+            except Exception:
+                pass
+            continue
         sessions.append(s)
         res["cfgs"].append(cfg.key())
     nthreads = knobs.get("threads", 0)
@@ -579,7 +590,7 @@ def worker(job):
         for t in ths:
             t.join()
     else:
-        for i in range(job["steps"]):
+        for i in range(job["steps"] if sessions else 0):
             s = rng.choice(sessions)
             prog.mark({"i": i, "cfg": s.cfg.key()})
             s.step(res, aspects)
